@@ -402,6 +402,7 @@ void check_stalls(Thread* me, uint8_t kind)
 }
 
 bool g_trace = false;
+FILE* g_trace_file = nullptr; // SIM_TRACE=/path: trace into that file instead of stderr
 
 void step_common(Thread* me, uint8_t kind, uint64_t value)
 {
@@ -409,7 +410,7 @@ void step_common(Thread* me, uint8_t kind, uint64_t value)
   {
     // debugging aid for replays (SIM_TRACE=1); never draws from the PRNG or reads a real clock
     g_in_sched = true;
-    fprintf(stderr, "T%d k%d v%lu now=%lu step=%lu\n", me->id, kind, value, g_now, g_stats.steps);
+    fprintf(g_trace_file ? g_trace_file : stderr, "T%d k%d v%lu now=%lu step=%lu\n", me->id, kind, value, g_now, g_stats.steps);
     g_in_sched = false;
   }
   ++g_stats.steps;
@@ -601,6 +602,10 @@ void start(Config const& cfg)
   g_stats.threads_created = 1;
   g_clock_only = false;
   g_trace = getenv("SIM_TRACE") != nullptr;
+  if (g_trace && getenv("SIM_TRACE")[0] == '/')
+  {
+    g_trace_file = fopen(getenv("SIM_TRACE"), "w");
+  }
   g_active = true;
 }
 
